@@ -1,54 +1,108 @@
 package c10
 
 import (
-	"fmt"
 	"testing"
 
 	"verif/fw"
 )
 
-func TestEnumerationCounts(t *testing.T) {
-	buildD1()
-	fmt.Println("specs", len(specs), "depth1", len(enumD1), "depth2(q)", len(depth2(quickCap)), "depth2(t)", len(depth2(thoroughCap)))
-	fmt.Println("quick programs", prop{}.Cases("quick"), "thorough", prop{}.Cases("thorough"))
+// The reference interpreter on hand-computed cases (it is the trusted base of the property).
+func TestReferenceByHand(t *testing.T) {
+	as := func(n string, e Expr) *Stmt { return &Stmt{Name: n, E: e} }
+	list := func(xs ...int64) Expr {
+		var es []Expr
+		for _, x := range xs {
+			es = append(es, li(x))
+		}
+		return &ListLit{es}
+	}
+	set := func(xs ...int64) Expr {
+		var es []Expr
+		for _, x := range xs {
+			es = append(es, li(x))
+		}
+		return &SetLit{es}
+	}
+	main := &View{Name: "main", Params: []Param{{"p1", tInt}, {"x", tInt}}}
+	main.Body = &Transform{Arg: nm("p1"), Stmts: []*Stmt{
+		as("div", bin("DIV", li(-3), li(2))),
+		as("mod", bin("MOD", li(-3), li(2))),
+		as("mod2", bin("MOD", li(7), li(-3))),
+		{Let: true, Name: "a", E: list(1, 2, 3)},
+		{Let: true, Name: "b", E: bin("BITOR", nm("a"), list(4))},
+		{Let: true, Name: "c", E: bin("BITOR", nm("a"), list(5))},
+		as("b", nm("b")),
+		as("c", nm("c")),
+		as("u", bin("BITOR", set(1, 2), set(2, 3))),
+		{Name: "t", T: &Transform{Arg: list(1, 2, 3, 4), Ret: "set", TName: "Rec", Var: "x", Stmts: []*Stmt{as("par", bin("MOD", nm("x"), li(2)))}}},
+		as("x", nm("x")),
+		as("w", where(set(1, 2, 3), "", bin("GT", dot(), li(1)))),
+		as("f", flatten(&ListLit{[]Expr{list(1, 2), list(3)}}, "x", bin("MUL", nm("x"), li(2)))),
+		as("x2", nm("x")),
+		as("n", &Count{set(5, 6)}),
+		as("in", bin("IN", ls("a"), lnull())),
+		as("nn", bin("EQ", lnull(), lnull())),
+		as("ni", bin("NE", li(0), lnull())),
+	}}
+	p := &Program{Views: []*View{main}, Main: "main", Args: []*Val{vInt(9), vInt(7)}}
+	want := map[string]string{
+		"div": "-1", "mod": "-1", "mod2": "1", "b": "[1, 2, 3, 4]", "c": "[1, 2, 3, 5]", "u": "{1, 2, 3}",
+		"t": "{(par: 0), (par: 1)}", "x": "7", "w": "{2, 3}", "f": "[2, 4, 6]", "x2": "7", "n": "2",
+		"in": "false", "nn": "true", "ni": "true",
+	}
+	got, params, err := newInterp(p, mode{}).run(p.Args)
+	if err != nil {
+		t.Fatal(err)
+	}
+	for k, w := range want {
+		if g := got.M[k].canon(); g != w {
+			t.Errorf("%s: got %s want %s", k, g, w)
+		}
+	}
+	if params["x"].canon() != "7" {
+		t.Errorf("parameter x after the run: %s", params["x"].canon())
+	}
+	// the models of the two known defects give what the probes showed on the pinned tree
+	got, _, _ = newInterp(p, mode{alias: true}).run(p.Args)
+	if g := got.M["b"].canon(); g != "[1, 2, 3, 5]" {
+		t.Errorf("alias model: b = %s", g)
+	}
+	got, params, _ = newInterp(p, mode{del: true}).run(p.Args)
+	if g := got.M["x"].canon(); g != "<missing>" {
+		t.Errorf("delete model: x = %s", g)
+	}
+	if params["x"].K != KMissing {
+		t.Errorf("delete model: caller's x = %s", params["x"].canon())
+	}
 }
 
+// The random generator must only produce programs the reference accepts or calls unpinned.
 func TestRandomGeneratorWellTyped(t *testing.T) {
 	kinds := map[string]int{}
-	msgs := map[string]int{}
-	ok := 0
-	cells := map[string]bool{}
-	for i := 0; i < 20000; i++ {
+	for i := 0; i < 30000; i++ {
 		p, _ := randomProgram(fw.NewRand(1, uint64(i)))
-		in := newInterp(p, mode{})
-		_, _, err := in.run(p.Args)
+		_, _, err := newInterp(p, mode{}).run(p.Args)
+		if err == nil {
+			// no operator may read a name after a transform has used it as scope variable
+			if _, _, derr := newInterp(p, mode{del: true}).run(p.Args); derr != nil {
+				t.Errorf("use after shadowing: %v\n%s", derr, p.Render())
+			}
+		}
 		if err != nil {
 			re := err.(*refErr)
 			kinds[re.kind]++
 			if re.kind != "unpinned" {
-				msgs[re.msg]++
-				if msgs[re.msg] == 1 {
-					fmt.Println("----", re.kind, re.msg)
-					fmt.Println(p.Render())
-					fmt.Println(argsText(p))
-				}
-			} else {
-				msgs["unpinned: "+re.msg]++
+				t.Errorf("generated program rejected as %s: %s\n%s", re.kind, re.msg, p.Render())
 			}
-			continue
-		}
-		ok++
-		for c := range in.cells {
-			cells[c] = true
 		}
 	}
-	fmt.Println("ok", ok, kinds)
-	for m, n := range msgs {
-		fmt.Println(n, m)
-	}
-	for _, c := range generatedCells {
-		if !cells[c] {
-			fmt.Println("random part never hits", c)
-		}
+	t.Log("rejected:", kinds)
+}
+
+func TestEnumerationIsFixed(t *testing.T) {
+	buildD1()
+	t.Log("specs", len(specs), "depth1", len(enumD1), "depth2 quick", len(depth2(quickCap)))
+	if len(enumD1) < 1000 || len(depth2(quickCap)) < 3000 {
+		t.Errorf("enumeration shrank")
 	}
 }
